@@ -43,7 +43,7 @@ import (
 // ---------------------------------------------------------------- configuration of one case
 
 type faultSpec struct {
-	kind  string // he hp pe pp pa px
+	kind  string // he hp hc pe pp pa pw px (hc / pw: handler / publisher error that wraps context.Canceled)
 	stage int
 	call  int // 1-based: the call-th handler invocation (he, hp, px) / publisher call (pe, pp, pa) of that stage
 	pos   int // px only: the output position whose Publish call is refused
@@ -229,7 +229,7 @@ func (c caseCfg) validate() error {
 		return errors.New("stage 0 must only be fed by the source")
 	}
 	for _, f := range c.faults {
-		if f.stage < 0 || f.stage >= n || f.call < 1 || !strings.Contains(" he hp pe pp pa px ", " "+f.kind+" ") {
+		if f.stage < 0 || f.stage >= n || f.call < 1 || !strings.Contains(" he hp hc pe pp pa pw px ", " "+f.kind+" ") {
 			return fmt.Errorf("bad fault %+v", f)
 		}
 		if f.kind == "px" && (f.pos < 0 || f.pos >= c.width(f.stage)) {
@@ -293,6 +293,7 @@ type rec struct {
 	srcDone  int
 	watchers int
 	stats    map[string]int
+	notes    []string
 
 	notify chan struct{}
 	done   chan struct{}
@@ -382,6 +383,34 @@ func settled(m *message.Message) bool {
 	}
 }
 
+// stamp completes a message that is about to be published: hop counter and a digest of what the consumer must see.
+func stamp(m *message.Message, hops int) {
+	m.Metadata.Set("hops", strconv.Itoa(hops))
+	m.Metadata.Set("sum", string(m.Payload)+"|"+strconv.Itoa(hops))
+}
+
+// asPublished returns "" when the received copy is the message as it was published, else what differs.
+func asPublished(m *message.Message) string {
+	var d []string
+	if m.Metadata.Get("dirty") != "" {
+		d = append(d, "carries the in-place mark of an earlier attempt")
+	}
+	if got := string(m.Payload) + "|" + m.Metadata.Get("hops"); got != m.Metadata.Get("sum") {
+		d = append(d, fmt.Sprintf("payload|hops = %q, published %q", got, m.Metadata.Get("sum")))
+	}
+	if string(m.Payload) != "payload-"+m.Metadata.Get("lin") {
+		d = append(d, fmt.Sprintf("payload %q", string(m.Payload)))
+	}
+	return strings.Join(d, "; ")
+}
+
+// scribble edits the received copy in place, the way a careless handler would.
+func scribble(m *message.Message, hops int) {
+	m.Payload = []byte("scribbled")
+	m.Metadata.Set("hops", strconv.Itoa(hops+2))
+	m.Metadata.Set("dirty", "1")
+}
+
 func lineage(m *message.Message) int {
 	l, err := strconv.Atoi(m.Metadata.Get("lin"))
 	if err != nil || l < 0 || "L"+m.Metadata.Get("lin") != m.UUID {
@@ -412,12 +441,20 @@ func (r *rec) handler(stage int) message.HandlerFunc {
 	return func(msg *message.Message) ([]*message.Message, error) {
 		r.yield()
 		lin := lineage(msg)
+		hops, _ := strconv.Atoi(msg.Metadata.Get("hops"))
+		diff := asPublished(msg)
 		r.mu.Lock()
 		r.invN++
 		inv := r.invN
 		r.hcalls[stage]++
 		r.invs[inv] = &invRec{stage: stage, lin: lin, ord: r.hcalls[stage], msg: msg}
 		r.log(fmt.Sprintf("hs.%d.%d.%d", stage, lin, inv))
+		if diff != "" {
+			// the delivered copy is not the message as it was published (e.g. a redelivery that carries the edits of the failed attempt)
+			r.log(fmt.Sprintf("dirty.%d.%d.%d", stage, lin, inv))
+			r.stats["dirty"]++
+			r.notes = append(r.notes, fmt.Sprintf("stage %d lineage %d invocation %d received a copy that differs from the published message: %s", stage, lin, inv, diff))
+		}
 		f := r.faultFor(stage, r.hcalls[stage], false)
 		if f != "" {
 			r.log(fmt.Sprintf("ft.%d.%d.%d.%s", stage, lin, inv, f))
@@ -429,8 +466,13 @@ func (r *rec) handler(stage int) message.HandlerFunc {
 		r.yield()
 		switch f {
 		case "he":
+			scribble(msg, hops)
 			return nil, errors.New("scripted handler error")
+		case "hc":
+			scribble(msg, hops)
+			return nil, fmt.Errorf("scripted handler interruption: %w", context.Canceled)
 		case "hp":
+			scribble(msg, hops)
 			panic("scripted handler panic")
 		}
 		// w outputs per input; output #j carries the derived lineage lin*w+j
@@ -438,11 +480,15 @@ func (r *rec) handler(stage int) message.HandlerFunc {
 		outs := make([]*message.Message, w)
 		for j := range outs {
 			d := strconv.Itoa(lin*w + j)
-			outs[j] = message.NewMessage("L"+d, msg.Payload)
+			outs[j] = message.NewMessage("L"+d, []byte("payload-"+d))
 			outs[j].Metadata.Set("lin", d)
 			outs[j].Metadata.Set("inv", strconv.Itoa(inv))
 			outs[j].Metadata.Set("pos", strconv.Itoa(j))
+			stamp(outs[j], hops+1)
 		}
+		// every stage edits the copy it received IN PLACE (payload field replaced, hop counter incremented, mark set) before the
+		// outcome of the invocation is known: if it is nacked, the redelivery must nevertheless be the message as published
+		scribble(msg, hops)
 		return outs, nil
 	}
 }
@@ -485,10 +531,14 @@ func (p *faultPub) Publish(topic string, msgs ...*message.Message) error {
 	}
 	fan := len(r.cfg.shape[st]) * len(msgs)
 	switch f {
-	case "pe", "px":
+	case "pe", "px", "pw":
 		r.log("ft." + id + "." + f)
 		r.log("pr." + id + ".err")
 		r.mu.Unlock()
+		if f == "pw" {
+			// an error that satisfies errors.Is(err, context.Canceled): still a publish failure, the message must come back
+			return fmt.Errorf("scripted publish interruption: %w", context.Canceled)
+		}
 		return errors.New("scripted publish error")
 	case "pp":
 		r.log("ft." + id + ".pp")
@@ -543,6 +593,7 @@ type result struct {
 	stuck    bool
 	leftover string
 	stats    map[string]int
+	notes    []string
 	wall     time.Duration
 }
 
@@ -643,6 +694,7 @@ func runCase(c caseCfg) result {
 	publishOne := func(l int) {
 		m := message.NewMessage("L"+strconv.Itoa(l), []byte("payload-"+strconv.Itoa(l)))
 		m.Metadata.Set("lin", strconv.Itoa(l))
+		stamp(m, 0)
 		r.mu.Lock()
 		r.log(fmt.Sprintf("sc.%d", l))
 		r.live++
@@ -704,6 +756,7 @@ wait:
 	for k, v := range r.stats {
 		stats[k] = v
 	}
+	notes := append([]string(nil), r.notes...)
 	r.mu.Unlock()
 
 	// tear down: routers closed, Pub/Sub closed, goroutines gone
@@ -713,7 +766,7 @@ wait:
 	}
 	cancel()
 	_ = ps.Close()
-	res := result{trace: trace, stuck: stuck, stats: stats}
+	res := result{trace: trace, stuck: stuck, stats: stats, notes: notes}
 	fin := make(chan struct{})
 	go func() { runs.Wait(); aux.Wait(); close(fin) }()
 	select {
@@ -758,6 +811,11 @@ func emit(out *wh.Out, c caseCfg, class string) bool {
 	if d := res.stats["sink"] - c.nmsgs*c.leaves(); d > 0 && !res.stuck {
 		out.Add("duplicates-at-sink", d)
 	}
+	for i, n := range res.notes {
+		if i < 3 {
+			out.Note("DIRTY " + c.String() + ": " + n)
+		}
+	}
 	if res.leftover != "" {
 		out.Count("leftover-goroutines")
 		out.Note("LEFTOVER after " + c.String() + ": " + strings.ReplaceAll(res.leftover, "\n", " | "))
@@ -771,7 +829,8 @@ func emit(out *wh.Out, c caseCfg, class string) bool {
 
 // ---------------------------------------------------------------- generators
 
-var kinds = []string{"he", "hp", "pe", "pp", "pa"}
+var kinds = []string{"he", "hp", "pe", "pp", "pa", "hc", "pw"}
+var kinds5 = kinds[:5] // without the context.Canceled flavours
 
 func chain(n int) [][]int {
 	var sh [][]int
@@ -788,7 +847,7 @@ var fanShapes = [][][]int{
 	{{1}, {2, 3}, {4}, {4}},    // 0 -> 1 -> {2,3} -> sink topic
 }
 
-func placements(stages, calls int) []faultSpec {
+func placements(stages, calls int, kinds []string) []faultSpec {
 	var all []faultSpec
 	for s := 0; s < stages; s++ {
 		for k := 1; k <= calls; k++ {
@@ -813,7 +872,7 @@ func multiPlacements(widths []int, pxCalls, calls int) []faultSpec {
 			}
 		}
 	}
-	return append(all, placements(len(widths), calls)...)
+	return append(all, placements(len(widths), calls, kinds5)...)
 }
 
 // subsets enumerates all subsets of size <= max (in a fixed order).
@@ -910,11 +969,11 @@ func main() {
 	rng := wh.NewRng(a.Seed)
 	t0 := time.Now()
 
-	// 1. exhaustive: every placement of <= 2 faults (5 kinds x stage x call 1..3) on chains of <= 2 stages with <= 2 messages;
+	// 1. exhaustive: every placement of <= 2 faults (7 kinds x stage x call 1..3) on chains of <= 2 stages with <= 2 messages;
 	//    the GoChannel configuration and the wiring rotate with the seed
 	for stages := 1; stages <= 2; stages++ {
 		for msgs := 1; msgs <= 2; msgs++ {
-			for _, fs := range subsets(placements(stages, 3), 2) {
+			for _, fs := range subsets(placements(stages, 3, kinds), 2) {
 				c := caseCfg{shape: chain(stages), nmsgs: msgs, faults: fs}
 				randomWiring(rng, &c)
 				if !emit(out, c, "exhaustive2") {
@@ -945,10 +1004,17 @@ func main() {
 		}
 	}
 	out.Add("wall_ms.exhaustive2-multi-output", int(time.Since(t1b).Milliseconds()))
-	// 2. thorough: every placement of <= 3 faults on the chain of 3 stages (calls 1..3), 2 messages
+	// 2. thorough: every placement of <= 3 faults (5 kinds) and of <= 2 faults (7 kinds) on the chain of 3 stages (calls 1..3), 2 messages
 	if a.Thorough() {
 		t1 := time.Now()
-		for _, fs := range subsets(placements(3, 3), 3) {
+		for _, fs := range subsets(placements(3, 3, kinds), 2) {
+			c := caseCfg{shape: chain(3), nmsgs: 2, faults: fs}
+			randomWiring(rng, &c)
+			if !emit(out, c, "exhaustive2-3stages") {
+				return
+			}
+		}
+		for _, fs := range subsets(placements(3, 3, kinds5), 3) {
 			c := caseCfg{shape: chain(3), nmsgs: 2, faults: fs}
 			randomWiring(rng, &c)
 			if !emit(out, c, "exhaustive3") {
